@@ -90,6 +90,21 @@ def ptrOf : Cell → Option DPtr
   | .ptr b => some (.blk b)
   | .inl _ => none
 
+/-- `other.data == data` for another object `other` seen as its cell: both at the sentinel, or both at the same heap block
+    (a pointer to `other`'s own `_data` is never this object's `data`) -/
+def ptrEq (o : Obj) : Cell → Bool
+  | .null => (match o.data with | .nullData => true | _ => false)
+  | .ptr b => (match o.data with | .blk b' => b == b' | _ => false)
+  | .inl _ => false
+
+/-- `data == &_data` -/
+def isOwn (o : Obj) : Bool := match o.data with | .own => true | _ => false
+
+/-- a `data` pointer another object may take over: the sentinel or a heap block (not a pointer to this object's `_data`) -/
+def xptr : DPtr → Option DPtr
+  | .own => none
+  | p => some p
+
 /-! ### reference counts -/
 
 def incrBlk (s : Heap) (b : Nat) : Option Heap :=
